@@ -3,14 +3,22 @@ Model of the hand-off pipeline of `wtransport/src/driver/mod.rs` for one stream 
 (`accept_uni` / `accept_bi` of the worker, the spawned preamble tasks, the bounded queues
 `ready_*_h3_streams` / `ready_*_wt_streams`, `Driver::accept_uni/accept_bi`).
 
-A stream the peer opens sits in quinn's backlog until the worker branch, having reserved a slot
-in the H3 queue and a slot in the WT queue, accepts it and spawns the task that reads its
-preamble; the task holds both slots until the preamble is complete, then turns the WT slot into
-a queued stream; the application's accept call takes it from the queue. Both queues of a kind
-have the same capacity (`cap`: 4 for unidirectional, 1 for bidirectional streams — regenerated
-from the source), so the number of tasks plus queued streams never exceeds `cap`.
+A stream the peer opens sits in quinn's backlog until the worker branch accepts it and spawns
+the task that reads its preamble; when the preamble is complete the task puts the stream into
+the bounded queue towards the application (`cap`: 4 for unidirectional, 1 for bidirectional
+streams — regenerated from the source); the application's accept call takes it from the queue.
+
+Where the queue slot is taken is a structural fact of the source that the translator extracts
+(`Generated.HANDOFF_RESERVE_FIRST_*`):
+* `reserveFirst = false` (the tree after `fix:` D6): the task waits for a free slot only once
+  the preamble is complete (`Sender::send().await`), so a task waiting for bytes holds nothing;
+* `reserveFirst = true` (the pinned tree): the worker reserved the slot (`reserve_owned`) before
+  accepting the stream and the task held it while waiting for bytes, so the number of tasks plus
+  queued streams never exceeded `cap` — and `cap` streams stalled in their preamble blocked the
+  kind (`Props/C07.reserve_first_violates_*`).
 -/
 import WtVerif.Varint
+import WtVerif.Generated.Consts
 
 namespace Handoff
 
@@ -23,6 +31,7 @@ structure St where
   dropped   : List Nat      -- reset / lost before the preamble was complete
   cap       : Nat
   stalled   : List Nat      -- ids whose preamble never completes (the peer sends nothing more)
+  reserveFirst : Bool       -- is the queue slot taken before the preamble is read
   deriving DecidableEq, Repr
 
 inductive Act
@@ -40,28 +49,34 @@ def step (s : St) : Act → St
     match s.backlog with
     | [] => s
     | id :: rest =>
-      if s.tasks.length + s.queue.length < s.cap then { s with backlog := rest, tasks := id :: s.tasks } else s
+      if s.reserveFirst = false ∨ s.tasks.length + s.queue.length < s.cap then
+        { s with backlog := rest, tasks := id :: s.tasks } else s
   | .taskDone id =>
-    if id ∈ s.tasks ∧ id ∉ s.stalled then { s with tasks := s.tasks.erase id, queue := s.queue ++ [id] } else s
+    if id ∈ s.tasks ∧ id ∉ s.stalled ∧ (s.reserveFirst = true ∨ s.queue.length < s.cap) then
+      { s with tasks := s.tasks.erase id, queue := s.queue ++ [id] } else s
   | .taskIoErr id => if id ∈ s.tasks then { s with tasks := s.tasks.erase id, dropped := id :: s.dropped } else s
   | .appRecv => match s.queue with
     | [] => s
     | id :: rest => { s with queue := rest, delivered := id :: s.delivered }
   | .appCancel => s
 
-def init (cap : Nat) (stalled : List Nat) : St :=
-  { opened := [], backlog := [], tasks := [], queue := [], delivered := [], dropped := [], cap := cap, stalled := stalled }
+def init (cap : Nat) (stalled : List Nat) (reserveFirst : Bool := false) : St :=
+  { opened := [], backlog := [], tasks := [], queue := [], delivered := [], dropped := [], cap := cap,
+    stalled := stalled, reserveFirst := reserveFirst }
 
 def run (s : St) (as : List Act) : St := as.foldl step s
 
 /-- conservation + capacity: every opened stream is in exactly one place -/
 def Conserved (s : St) : Prop :=
   (∀ x, s.opened.count x = s.backlog.count x + s.tasks.count x + s.queue.count x
-        + s.delivered.count x + s.dropped.count x) ∧ s.opened.Nodup ∧ s.tasks.length + s.queue.length ≤ s.cap
+        + s.delivered.count x + s.dropped.count x) ∧ s.opened.Nodup ∧
+  s.queue.length ≤ s.cap ∧ (s.reserveFirst = true → s.tasks.length + s.queue.length ≤ s.cap)
 
 /-- internal actions that are enabled (can change the state) -/
-def canAccept (s : St) : Bool := !s.backlog.isEmpty && decide (s.tasks.length + s.queue.length < s.cap)
-def canFinish (s : St) : Bool := s.tasks.any (fun id => !s.stalled.contains id)
+def canAccept (s : St) : Bool :=
+  !s.backlog.isEmpty && (!s.reserveFirst || decide (s.tasks.length + s.queue.length < s.cap))
+def canFinish (s : St) : Bool :=
+  s.tasks.any (fun id => !s.stalled.contains id) && (s.reserveFirst || decide (s.queue.length < s.cap))
 def canRecv (s : St) : Bool := !s.queue.isEmpty
 
 /-- nothing internal can happen any more (the application keeps accepting) -/
@@ -80,8 +95,10 @@ def drain : Nat → St → St
   | 0, s => s
   | fuel + 1, s =>
     if canRecv s then drain fuel (step s .appRecv)
-    else match s.tasks.find? (fun id => !s.stalled.contains id) with
+    else if canFinish s then
+      match s.tasks.find? (fun id => !s.stalled.contains id) with
       | some id => drain fuel (step s (.taskDone id))
-      | none => if canAccept s then drain fuel (step s .workerAccept) else s
+      | none => s
+    else if canAccept s then drain fuel (step s .workerAccept) else s
 
 end Handoff
